@@ -21,83 +21,83 @@ def AUX(name, cmd, quick, thorough, model=False, cgo=False):
 
 PROPS = {
     'C01': {
-        'streams': [S('C01', 250, 6000)],
+        'streams': [S('C01', 1500, 30000)],
         'explanation': 'theorems: one knowing hop is the identity (up to object identity) for every error of exact-decoder kinds, any byte strings, any depth, any number of hops; for EVERY error and every process with closed knowledge everything is stable from the second hop on and the wire message is a fixpoint (from the first hop unless a foreign-platform errno is forwarded); wire message has the shape of the visible tree; a process knowing none of the types re-emits its input verbatim. Correspondence: text/shape tree and encoded message of model vs implementation locally and after 1 and 2 knowing hops on the enumerated kind x kind corpus + random trees; Go relation: text tree equal after hops 1..4, wire bytes of hop k = hop k+1 for k>=1',
         'not_yet_proved': ['the FIRST hop keeps the text at nodes that decode to the opaque stand-ins (stack layer, pkg/errors, fmt.Errorf, user types); proved: exact-kind errors at the first hop, every error from the second hop on'],
         'assumptions': [ASSUME_UNIVERSE, 'regular strings (property quantifier)'],
     },
     'C02': {
-        'streams': [S('C02', 200, 5000)],
+        'streams': [S('C02', 1200, 25000)],
         'explanation': 'theorems: Is is decided by identity / Is methods / mark equality over the visible nodes (iff); Is and IsAny cannot distinguish errors with the same erasure (hence: unchanged by one knowing hop for exact-kind errors, unchanged from the second hop on for every error); reference-side statement with the os-sentinel exemption (witness proved); opaque stand-ins carry the origin type marks; unknowing hops invisible later. Correspondence: Is against sentinels, nodes, rebuilt and perturbed copies before and after mixed hop sequences; Go relation: Is invariant (e transferred / both / only r)',
         'not_yet_proved': ['first-hop mark preservation for kinds decoded to the opaque stand-ins (same gap as C01)'],
         'assumptions': [ASSUME_UNIVERSE, 'the process evaluating Is can rebuild the types whose own Is method or Mark layer produced the match (DESIGN.md section 6 reading)'],
     },
     'C03': {
-        'streams': [S('C03', 250, 6000)],
+        'streams': [S('C03', 1500, 30000)],
         'explanation': 'Correspondence on hostile strings: redactable %v/%+v, safe details, wire message, Sentry report of model vs implementation, local / knowing hops / unknowing hop; Go relation: no unsafe token in any PII-free output',
         'not_yet_proved': ['C03_*_ni non-interference through the formatting engine'],
         'assumptions': [ASSUME_UNIVERSE],
     },
     'C04': {
-        'streams': [S('C04', 200, 5000)],
+        'streams': [S('C04', 1200, 25000)],
         'explanation': 'theorems: exact re-encoding and confluence through processes that know none of the types, opaque nodes show the received text and keep names and details; refutation witnesses for the two recorded findings. Correspondence: shape / wire message / details at intermediaries with random knowledge subsets and at a later knowing process; Go relation: text, byte-exact re-encoding, names and details, reconstruction equal to direct receipt',
         'not_yet_proved': ['confluence (later knowing process = direct receipt) for partially knowing intermediaries'],
         'assumptions': [ASSUME_UNIVERSE, 'regular strings'],
     },
     'C06': {
-        'streams': [S('C06', 250, 6000), S('C06R', 150, 4000)],
+        'streams': [S('C06', 1500, 30000), S('C06R', 900, 20000)],
         'explanation': 'Correspondence: redactable renderings byte-equal model vs implementation on hostile strings (local, decoded, opaque) and on regular strings with the plain renderings; Go relation: markers balanced / not nested / balanced per line; strip = plain; unsupported verbs refused',
         'not_yet_proved': ['C06_wf over the buffer model for all byte strings', 'C06_congruent'],
         'assumptions': [ASSUME_UNIVERSE],
     },
     'C07': {
-        'streams': [S('C07', 250, 6000), S('C07M', 150, 4000)],
+        'streams': [S('C07', 1500, 30000), S('C07M', 900, 20000)],
         'explanation': 'theorems: full non-interference: any two errors equal up to what is hidden behind barriers / in secondary positions (any context, any depth, inside multi-cause branches) agree on Is / IsAny (both sides) / As / HasType / every accessor / Error() / %v / marks / traversal; a Mark layer keeps only the mark; the hidden payload is re-decoded into the hidden position. Correspondence: accessors, Is, As; Go relation: the same context built over a different hidden payload gives the same cause analysis, locally and after hops',
         'not_yet_proved': ['"hidden error visible in %+v and contributes safe details" (correspondence only)'],
         'assumptions': [ASSUME_UNIVERSE],
     },
     'C08': {
-        'streams': [S('C08', 250, 6000)],
+        'streams': [S('C08', 1500, 30000)],
         'explanation': 'theorems: reflexivity, monotonicity for every wrapper / multi kind, IsAny = disjunction, nil, equalMarks decides mark equality, exact characterisation, Mark. Correspondence: Is / IsAny matrix against sentinels, nodes, rebuilt and perturbed copies; Go relation: the algebraic laws on the implementation, panics caught',
         'assumptions': [ASSUME_UNIVERSE],
     },
     'C09': {
-        'streams': [S('C09', 150, 5000)],
+        'streams': [S('C09', 900, 25000)],
         'explanation': 'theorems: %v = Error() for every tree of every kind with plain strings (no newline; ASCII where escaped); exactly one entry per visible layer for every tree / flags / state; types line. Correspondence: %v and %+v byte-equal model vs implementation (local and decoded); Go relation: %v = %s = Error(), %q/%x/%X/width/precision/flags = fmt on the Error() string, entry count, Error types line, bad verbs',
         'not_yet_proved': ['the layout of each entry of %+v; %v = Error() for strings with interior newlines (false for arbitrary newlines)'],
         'assumptions': [ASSUME_UNIVERSE, "Go's fmt for %q/%x/%X/width/precision is not modelled (oracle only)"],
     },
     'C10': {
-        'streams': [S('C10', 300, 8000)],
+        'streams': [S('C10', 1800, 40000)],
         'explanation': 'theorems: annotation layers transparent for text / root / Is / As, prefix and new-message layers, Handled, nil propagation for every wrapper constructor, CombineErrors / WithSecondaryError nil laws, leaf constructors non-nil. Correspondence: nil-ness, text at every node, root; Go relation: independent compositional model of text and nil-ness over recipes',
         'not_yet_proved': ['prefix: cause-text for causes whose strings contain newlines'],
         'assumptions': [ASSUME_UNIVERSE, 'regular strings'],
     },
     'C11': {
-        'streams': [S('C11', 200, 5000)],
+        'streams': [S('C11', 1200, 25000)],
         'explanation': 'theorems: every accessor is a function of the erasure; exact-kind errors keep every annotation and per-layer safe details over any number of knowing hops; every error is stable from the second hop on; every annotation layer is rebuilt over any cause; unknowing hops invisible later. Correspondence: every accessor, per-layer safe details, reportable stacks, one-line source before and after 1 and 2 knowing hops; Go relation: accessor vector equal after hops 1..3',
         'not_yet_proved': ['reportable stack frames of stack layers across the first hop (printed-stack codec)'],
         'assumptions': [ASSUME_UNIVERSE],
     },
     'C12': {
-        'streams': [S('C12', 250, 6000)],
+        'streams': [S('C12', 1500, 30000)],
         'explanation': 'Correspondence: Sentry report and safe details model vs implementation; Go relation: every safe-channel token is in the report or in GetAllSafeDetails, locally and after knowing hops',
         'not_yet_proved': ['C12_retained'],
         'assumptions': [ASSUME_UNIVERSE, 'channels as listed by the property statement'],
     },
     'C13': {
-        'streams': [S('C13', 120, 4000)],
+        'streams': [S('C13', 720, 20000)],
         'explanation': 'theorems: Is / As clauses of multi-cause nodes, leaves for Unwrap, stdlib join text, wire shape, opaque branches. Correspondence: shape, Is, As, %+v, hops knowing and unknowing; Go relation: branch disjunction, first match in order, nil dropping, transfer keeps branches',
         'not_yet_proved': ['C13_join text of the library join through the engine'],
         'assumptions': [ASSUME_UNIVERSE],
     },
     'C14': {
-        'streams': [S('C14', 250, 6000)],
+        'streams': [S('C14', 1500, 30000)],
         'explanation': 'theorems: std Is implies Is; As = std As when every wrapper has Unwrap, implication on single chains; Unwrap agreement; Cause = pkg Cause on Cause-bearing chains; std traversal. Correspondence: the real errors.Is/As/Unwrap and pkg/errors.Cause against Std.v; Go relation: the same implications on the implementation',
         'assumptions': [ASSUME_UNIVERSE, 'Std.v transcribes Go 1.23 errors.Is/As/Unwrap (validated by the correspondence)'],
     },
     'C15': {
-        'streams': [S('C15', 120, 4000)],
+        'streams': [S('C15', 720, 20000)],
         'explanation': 'Correspondence: message, exceptions (type, value, module, frames) and error-types extra of BuildSentryReport, model vs implementation, local and decoded; Go relation: message prefix, one composition line / type line per layer, exceptions = stack-bearing layers outermost first',
         'not_yet_proved': ['C15 counting theorems over build_report'],
         'assumptions': [ASSUME_UNIVERSE, 'sentry-go event defaults not modelled'],
@@ -131,7 +131,7 @@ PROPS = {
         'assumptions': ['grpc-go transports code, message and details unchanged; gogo/status conversions (exercised, not modelled)'],
     },
     'C19': {
-        'streams': [S('C19', 600, 20000)],
+        'streams': [S('C19', 3600, 100000)],
         'explanation': 'C19_hints/C19_details/C19_flatten/C19_links/C19_keys: the Go accumulator code (transcribed in Model/Access.v) equals the declarative spec of Spec/Aggregate.v for every error tree; correspondence compares GetAllHints/GetAllDetails/Flatten*/GetAllIssueLinks/GetTelemetryKeys/GetContextTags of the real library with the model on generated chains with repeated, empty and standard hints; Go relation: independent re-implementation',
         'assumptions': [ASSUME_UNIVERSE],
     },
